@@ -47,7 +47,8 @@ SepOKAt(pos, n) == (pos = "path" /\ n.two) => n.sep \in {"-", "_", "."}
 \* path under two methods, a base path.  Each operation must be routed to its own handler.
 \* tags_selected: generation restricted with --tags to one tag; an operation carries SEVERAL tags and is selected
 \* when any of them is the chosen one (first or not): every selected operation is generated and routed
-Shapes == {"root", "param_vs_static", "prefix", "methods", "basepath", "root_and_param", "tags_selected"}
+\* pathitem_ref: a path item given as a $ref into a sibling file: the operations behind it are generated and routed
+Shapes == {"root", "param_vs_static", "prefix", "methods", "basepath", "root_and_param", "tags_selected", "pathitem_ref"}
 \* a definition / operation whose file name would end in a word the Go toolchain reads as an implicit build
 \* constraint (GOOS / GOARCH / test): the generated file must still be part of the package
 BuildSuffixes == {"linux", "windows", "amd64", "arm", "test", "ppc", "zos", "sparc", "s390", "riscv", "js", "wasm", "hurd", "nacl"}
